@@ -15,7 +15,11 @@ META = {
     'modelled_not_verified': ['file system is an abstract map path -> bytes; no aliasing, permissions or partial writes'],
 }
 
-GOOD = [b'x = 1\n', b'def f(a):\n    return a\n', b'import os\nimport sys\n', b'', b'# only a comment\n', 'é = 1\n'.encode('utf-8')]
+# modules whose minified form is not a fixed point of minify (ties between local names are broken differently the second time):
+# a second pass over the same file would be visible
+UNSTABLE = [b'def f(first_value, second):\n    return second*first_value + second*first_value\n',
+            b'def compute(first_value, second_value):\n    total_one = first_value + second_value\n    total_two = first_value - second_value\n    return total_one * total_two\n']
+GOOD = UNSTABLE + [b'x = 1\n', b'def f(a):\n    return a\n', b'import os\nimport sys\n', b'', b'# only a comment\n', 'é = 1\n'.encode('utf-8')]
 BAD = [b'def (:\n', b'\xff\xfe\x00bad', b'x = (\n', b'\x00']
 
 
@@ -165,6 +169,23 @@ def gen_spec(ctx, fail_pos=None):
         spec[rng.choice(pyfiles)][2] = rng.choice(BAD)
     if rng.random() < 0.25:
         spec.append(['t/empty_dir', 'dir', None])
+    # other names for files of the tree: a link next to the file, in another directory of the tree, or a linked directory
+    if rng.random() < 0.4 and pyfiles:
+        for _ in range(rng.randint(1, 2)):
+            target = spec[rng.choice(pyfiles)][0]
+            kind = rng.random()
+            if kind < 0.75:
+                ldir = rng.choice(dirs)
+                link = ldir + '/' + rng.choice(['a_link.py', 'z_link.py', 'link.pyw', 'link.txt'])
+                if link not in used:
+                    used.add(link)
+                    spec.append([link, 'symlink', os.path.relpath(target, ldir)])
+            else:
+                tdir = os.path.dirname(target)
+                link = rng.choice(['t/ldir', 't/p/ldir', 't/zdir'])
+                if link not in used and tdir != 't' and not tdir.startswith(link):
+                    used.add(link)
+                    spec.append([link, 'symlink', os.path.relpath(tdir, os.path.dirname(link))])
     return [tuple(x) for x in spec]
 
 
@@ -196,6 +217,21 @@ def real_trees(ctx, n):
         ([('t/a.py', 'file', b'x = 1\n'), ('other/q/b.py', 'file', b'y  =  2\n'), ('t/ldir', 'symlink', '../other/q')], ['-i', 't']),
         ([('t/a.py', 'file', b'long_name = 1\nprint(long_name)\n'), ('t/z_alias.py', 'symlink', 'a.py')], ['-i', 't']),
         ([('t/a.txt', 'file', b'not python {'), ('t/l.py', 'symlink', 'a.txt')], ['-i', 't']),
+    ]
+    u = UNSTABLE[0]
+    sym_specs += [
+        ([('t/real.py', 'file', u), ('t/alias.py', 'symlink', 'real.py')], ['-i', 't']),
+        ([('t/real.py', 'file', u), ('t/z_alias.py', 'symlink', 'real.py')], ['--in-place', 't']),
+        ([('t/p/real.py', 'file', u), ('t/alias.py', 'symlink', 'p/real.py')], ['-i', 't']),
+        ([('t/real.py', 'file', u), ('t/p/alias.pyw', 'symlink', '../real.py')], ['-i', 't']),
+        ([('t/real.py', 'file', u), ('t/one.py', 'symlink', 'real.py'), ('t/two.py', 'symlink', 'one.py')], ['-i', 't']),
+        ([('t/real.py', 'file', u), ('u/alias.py', 'symlink', '../t/real.py')], ['-i', 't', 'u']),
+        ([('t/real.py', 'file', u), ('u/alias.py', 'symlink', '../t/real.py')], ['-i', 'u/alias.py', 't']),
+        ([('t/real.py', 'file', u), ('u/alias.py', 'symlink', '../t/real.py')], ['-i', 't/real.py', 'u/alias.py']),
+        ([('t/real.py', 'file', u)], ['-i', 't/real.py', 't/../t/real.py']),
+        ([('t/real.py', 'file', u)], ['-i', 't', 't/real.py', 't']),
+        ([('t/q/real.py', 'file', u), ('t/ldir', 'symlink', 'q')], ['-i', 't']),
+        ([('t/q/real.py', 'file', u), ('s/ldir', 'symlink', '../t/q')], ['-i', 's', 't']),
     ]
     for spec, args in sym_specs:
         v = real_tree_run(ctx, spec, args)
